@@ -68,8 +68,8 @@ Proof.
   apply not_known_good; [discriminate | exact H].
 Qed.
 
-Lemma emit_string_fixed_eq s : emit_string_fixed s = QUOTE :: dbl QUOTE s ++ [QUOTE].
-Proof. unfold emit_string_fixed, emit_string. rewrite esc_dbl. reflexivity. Qed.
+Lemma emit_literal_string_eq s : emit_literal_string s = QUOTE :: dbl QUOTE s ++ [QUOTE].
+Proof. unfold emit_literal_string, emit_string. rewrite esc_dbl. reflexivity. Qed.
 
 Lemma emit_quoted_not_known q s : q <> BSLASH -> esc_known q s = false -> emit_quoted q s = q :: dbl q s ++ [q].
 Proof.
@@ -77,8 +77,8 @@ Proof.
   apply not_known_good; assumption.
 Qed.
 
-Lemma emit_quoted_fixed_eq q s : emit_quoted_fixed q s = q :: dbl q s ++ [q].
-Proof. unfold emit_quoted_fixed, emit_quoted. rewrite esc_dbl. reflexivity. Qed.
+Lemma emit_ident_quoted_eq q s : emit_ident_quoted q s = q :: dbl q s ++ [q].
+Proof. unfold emit_ident_quoted, emit_quoted. rewrite esc_dbl. reflexivity. Qed.
 
 (* ------------------------------------------------------------------ the lexer composes *)
 
@@ -177,12 +177,13 @@ Proof.
   cbn [app] in E. rewrite app_nil_r in E. exact E.
 Qed.
 
-(* the repaired emitter round-trips every string on the standard family, in every context *)
-Theorem string_fixed_in_context d s pre suf :
+(* what prqlc emits NOW (quotes doubled first) round-trips every string that is free of backslashes for the
+   dialect -- every string at all on the standard family -- in every context *)
+Theorem literal_string_in_context d s pre suf :
   bs_free d s = true -> closed_prefix d pre = true -> starts_with 39 suf = false ->
-  sql_lex d (pre ++ emit_string_fixed s ++ suf) = sql_lex d pre ++ TString s :: sql_lex d suf.
+  sql_lex d (pre ++ emit_literal_string s ++ suf) = sql_lex d pre ++ TString s :: sql_lex d suf.
 Proof.
-  intros Hb Hp Hs. rewrite emit_string_fixed_eq.
+  intros Hb Hp Hs. rewrite emit_literal_string_eq.
   rewrite (sql_lex_closed_prefix d pre Hp). unfold sql_lex at 1. rewrite run_app.
   unfold closed_prefix in Hp. destruct (state_after d L0 pre); try discriminate.
   f_equal. change ((QUOTE :: dbl QUOTE s ++ [QUOTE]) ++ suf) with (QUOTE :: (dbl QUOTE s ++ [QUOTE]) ++ suf).
@@ -195,10 +196,19 @@ Proof. reflexivity. Qed.
 Theorem string_roundtrip_std s : esc_known QUOTE s = false -> sql_lex std_sql (emit_string s) = [TString s].
 Proof. intro H. apply string_roundtrip_ok. unfold str_ok. rewrite H. reflexivity. Qed.
 
-Theorem string_fixed_std_in_context s pre suf :
+Theorem literal_string_roundtrip d s : bs_free d s = true -> sql_lex d (emit_literal_string s) = [TString s].
+Proof.
+  intro H. pose proof (literal_string_in_context d s [] [] H eq_refl eq_refl) as E.
+  cbn [app] in E. rewrite app_nil_r in E. exact E.
+Qed.
+
+Theorem literal_string_roundtrip_std s : sql_lex std_sql (emit_literal_string s) = [TString s].
+Proof. apply literal_string_roundtrip. reflexivity. Qed.
+
+Theorem literal_string_in_context_std s pre suf :
   closed_prefix std_sql pre = true -> starts_with 39 suf = false ->
-  sql_lex std_sql (pre ++ emit_string_fixed s ++ suf) = sql_lex std_sql pre ++ TString s :: sql_lex std_sql suf.
-Proof. apply string_fixed_in_context. reflexivity. Qed.
+  sql_lex std_sql (pre ++ emit_literal_string s ++ suf) = sql_lex std_sql pre ++ TString s :: sql_lex std_sql suf.
+Proof. apply literal_string_in_context. reflexivity. Qed.
 
 (* strings without quote and backslash are fine everywhere (dates, times, numbers in quotes) *)
 Lemma safe_chars_ok d s : forallb (fun c => negb (c =? 39) && negb (c =? 92)) s = true -> str_ok d s = true.
